@@ -207,6 +207,44 @@ impl<'t> Glob<'t> {
 /// For unrooted globs, the pivot can be used to isolate the target path given to walk functions
 /// like `Glob::walk`. This is necessary to implement `Entry` and for interpreting depth behavior,
 /// which is always relative to the target path (and ignores any invariant prefix in a glob).
+// Verification hooks: read-only accessors, compiled only with `--cfg olson_sean_k_wax_verif`.
+#[cfg(olson_sean_k_wax_verif)]
+impl<'t> Glob<'t> {
+    /// Texts of the per-component programs that `walk` uses to prune directories.
+    pub fn verif_walk_component_patterns(&self) -> Vec<String> {
+        if self.is_empty() {
+            vec![]
+        }
+        else {
+            WalkProgram::compile::<Tokenized<_>>(self.tree.as_ref())
+                .expect("failed to compile walk program")
+                .iter()
+                .map(|regex| regex.as_str().to_string())
+                .collect()
+        }
+    }
+}
+
+/// Texts of the (exhaustive, nonexhaustive) programs that `FileIterator::not` compiles a negation
+/// pattern into.
+#[cfg(olson_sean_k_wax_verif)]
+pub fn verif_negation_patterns<'t>(
+    pattern: impl Pattern<'t>,
+) -> Result<(Option<String>, Option<String>), BuildError> {
+    let tree = pattern.try_into().map_err(Into::into)?;
+    let filter = FilterAny::any(tree.into_alternatives())?;
+    let text = |regex: &Regex| regex.as_str().to_string();
+    Ok(match filter.program {
+        FilterAnyProgram::Empty => (None, None),
+        FilterAnyProgram::Exhaustive(ref exhaustive) => (Some(text(exhaustive)), None),
+        FilterAnyProgram::Nonexhaustive(ref nonexhaustive) => (None, Some(text(nonexhaustive))),
+        FilterAnyProgram::Partitioned {
+            ref exhaustive,
+            ref nonexhaustive,
+        } => (Some(text(exhaustive)), Some(text(nonexhaustive))),
+    })
+}
+
 #[derive(Clone, Debug)]
 struct Anchor {
     /// The root path of the walk.
